@@ -488,14 +488,6 @@ def run_one(ctl: explorer.Ctl, cfg: Dict[str, Any]) -> Dict[str, Any]:
                     exc = None
                 except Exception as e:  # noqa: BLE001 - the property: nothing escapes
                     ret, exc = None, e
-                if BEHAVIOURS[b][1] == "raises-badstr" and m in (CUSTOM_REQ, CUSTOM_NOTE):
-                    # KNOWN on the current tree (reported, not judged): a register_method handler raising an exception whose
-                    # __str__ raises makes handle_message raise; tool / resource handlers doing the same ARE judged
-                    count("judged", -1)
-                    count("judged-distinct", -1)
-                    count("not-judged:register_method-handler-raises-exception-whose-str-raises:"
-                          + ("dispatch-raised" if exc is not None else "dispatch-returned"))
-                    continue
                 if reached["n"]:
                     count("scripted-handler-reached")
                     if m not in BEHAVIOUR_SENSITIVE:
@@ -1357,8 +1349,6 @@ def run(tier: str, only=None) -> core.Result:
         "its id (any result or error) and a notification None.  Outside the alphabet: a returned 2-element sequence (read as the "
         "pair, its content is the handler's responsibility - the suite pins (None, None) for an id-bearing request as 'no "
         "response'), BaseException, exceptions whose __str__ fails",
-        "a register_method handler raising an exception whose __str__ itself raises is run and counted but NOT judged: on the current "
-        "tree handle_message then raises (reported as an open observation); the same exception from tool / resource handlers is judged",
         "the nonsense return values, when returned by a tool / resource handler, are ordinary arbitrary results: result or -32603",
         "the session_id argument of handle_message is None throughout (sessions are C19's subject)",
         "two server objects built separately are independent: what is registered on one is not registered on another",
